@@ -4,11 +4,1199 @@
 -/
 import Rox.Lemmas.BInv4
 import Rox.Lemmas.Proto
+import Rox.Lemmas.Emits
 import Rox.Lemmas.TreeApi
 import Rox.Lemmas.SafeParse
 
 namespace Rox.Lemmas
 open Rox Rox.Spec
+
+/-! ### Arena level: the children of node 0 -/
+
+/-- the children of node 0, in document order -/
+def rootKids (a : Arena) : List Nat := (List.range a.size).filter fun j => par a j == some 0
+
+/-- number of Element children of node 0 -/
+def elemCount (a : Arena) : Nat :=
+  ((rootKids a).filter fun j => kindIs a j Kind.isElement).length
+
+/-- node 0 has no Text child -/
+def noTextKid (a : Arena) : Bool := (rootKids a).all fun j => !(kindIs a j Kind.isText)
+
+theorem singleRootB_eq (a : Arena) : singleRootB a = (elemCount a == 1 && noTextKid a) := rfl
+
+/-- the same description of the root's children -/
+def RKsame (a a' : Arena) : Prop := elemCount a' = elemCount a ∧ noTextKid a' = noTextKid a
+
+theorem RKsame.refl (a : Arena) : RKsame a a := ⟨rfl, rfl⟩
+theorem RKsame.trans {a b c : Arena} (h1 : RKsame a b) (h2 : RKsame b c) : RKsame a c :=
+  ⟨h2.1.trans h1.1, h2.2.trans h1.2⟩
+
+/-- parent links are kept -/
+def ParMono (a a' : Arena) : Prop := ∀ i p, par a i = some p → par a' i = some p
+
+theorem ParMono.refl (a : Arena) : ParMono a a := fun _ _ h => h
+theorem ParMono.trans {a b c : Arena} (h1 : ParMono a b) (h2 : ParMono b c) : ParMono a c :=
+  fun i p h => h2 i p (h1 i p h)
+
+/-- `pid` is `n` parent steps below node 0, and no node on the way (but the last) is node 0 -/
+def DepthIs (a : Arena) : Nat → Nat → Prop
+  | 0, pid => pid = 0
+  | n+1, pid => pid ≠ 0 ∧ ∃ p, par a pid = some p ∧ DepthIs a n p
+
+theorem DepthIs.mono {a a' : Arena} (hm : ParMono a a') : ∀ (n pid : Nat), DepthIs a n pid →
+    DepthIs a' n pid := by
+  intro n
+  induction n with
+  | zero => intro pid h; exact h
+  | succ n ih =>
+    intro pid h
+    obtain ⟨h0, p, hp, hd⟩ := h
+    exact ⟨h0, p, hm _ _ hp, ih p hd⟩
+
+/-- Two arenas with the same parent links and the same Element / Text nodes. -/
+structure SameRK (a a' : Arena) : Prop where
+  size : a'.size = a.size
+  par : ∀ i, par a' i = par a i
+  kelem : ∀ i, kindIs a' i Kind.isElement = kindIs a i Kind.isElement
+  ktext : ∀ i, kindIs a' i Kind.isText = kindIs a i Kind.isText
+
+theorem SameRK.rootKids {a a' : Arena} (s : SameRK a a') : rootKids a' = rootKids a := by
+  unfold Rox.Lemmas.rootKids
+  rw [s.size]
+  apply List.filter_congr
+  intro j _
+  rw [s.par]
+
+theorem SameRK.rksame {a a' : Arena} (s : SameRK a a') : RKsame a a' := by
+  refine ⟨?_, ?_⟩
+  · unfold elemCount
+    rw [s.rootKids]
+    congr 1
+    apply List.filter_congr
+    intro j _
+    rw [s.kelem]
+  · unfold noTextKid
+    rw [s.rootKids]
+    congr 1
+    funext j
+    rw [s.ktext]
+
+theorem SameRK.parMono {a a' : Arena} (s : SameRK a a') : ParMono a a' := by
+  intro i p h; rw [s.par]; exact h
+
+theorem sameRK_set (a : Arena) (i : Nat) (m m' : NodeData) (hm : a[i]? = some m)
+    (hp : m'.parent = m.parent) (he : m'.kind.isElement = m.kind.isElement)
+    (hk : m'.kind.isText = m.kind.isText) :
+    SameRK a (a.setIfInBounds i m') := by
+  have hi : i < a.size := (Array.getElem?_eq_some_iff.mp hm).1
+  have key : ∀ j, (a.setIfInBounds i m')[j]? = if i = j then some m' else a[j]? := by
+    intro j; rw [Array.getElem?_setIfInBounds]; split <;> simp_all
+  refine ⟨by simp, ?_, ?_, ?_⟩ <;> intro j <;>
+    simp only [Spec.par, Spec.kindIs, key j] <;>
+    (by_cases hij : i = j
+     · subst hij; simp [hm, hp, he, hk]
+     · simp [hij])
+
+theorem rootKids_lt (b : Arena) : ∀ j ∈ rootKids b, j < b.size := by
+  intro j hj
+  unfold rootKids at hj
+  have := (List.mem_filter.mp hj).1
+  exact List.mem_range.mp this
+
+theorem all_congr_mem {α} (l : List α) (p q : α → Bool) (h : ∀ x ∈ l, p x = q x) :
+    l.all p = l.all q := by
+  induction l with
+  | nil => rfl
+  | cons x xs ih =>
+    simp only [List.all_cons]
+    rw [h x (by simp), ih (fun y hy => h y (by simp [hy]))]
+
+section ext
+variable {a a' : Arena} {pid : Nat} {aw : List Nat} {k : Kind} (e : Ext a a' pid aw k)
+include e
+
+theorem Ext.parMono : ParMono a a' := by
+  intro i p h
+  have hi : i < a.size := by
+    by_cases hi : i < a.size
+    · exact hi
+    · have : a[i]? = none := by rw [Array.getElem?_eq_none]; omega
+      simp [Spec.par, this] at h
+  rw [e.par_old i hi]; exact h
+
+theorem Ext.rootKids : rootKids a' = rootKids a ++ (if pid = 0 then [a.size] else []) := by
+  unfold Rox.Lemmas.rootKids
+  rw [e.size, List.range_succ, List.filter_append]
+  congr 1
+  · apply List.filter_congr
+    intro j hj
+    rw [List.mem_range] at hj
+    rw [e.par_old j hj]
+  · simp only [List.filter_cons, List.filter_nil, e.par_new]
+    by_cases hp : pid = 0 <;> simp [hp]
+
+theorem Ext.elemCount :
+    elemCount a' = elemCount a + (if pid = 0 then (if k.isElement then 1 else 0) else 0) := by
+  unfold Rox.Lemmas.elemCount
+  rw [e.rootKids, List.filter_append, List.length_append]
+  congr 1
+  · congr 1
+    apply List.filter_congr
+    intro j hj
+    rw [e.kind_old j (rootKids_lt a j hj)]
+  · by_cases hp : pid = 0
+    · simp only [hp, if_true, List.filter_cons, List.filter_nil, e.kind_new]
+      cases k.isElement <;> simp
+    · simp [hp]
+
+theorem Ext.noTextKid :
+    noTextKid a' = (noTextKid a && !(decide (pid = 0) && k.isText)) := by
+  unfold Rox.Lemmas.noTextKid
+  rw [e.rootKids, List.all_append]
+  congr 1
+  · apply all_congr_mem
+    intro j hj
+    rw [e.kind_old j (rootKids_lt a j hj)]
+  · by_cases hp : pid = 0
+    · simp [hp, e.kind_new]
+    · simp [hp]
+
+theorem Ext.rksame_ne (hp : pid ≠ 0) : RKsame a a' := by
+  refine ⟨?_, ?_⟩
+  · rw [e.elemCount]; simp [hp]
+  · rw [e.noTextKid]; simp [hp]
+
+theorem Ext.rksame_leaf (he : k.isElement = false) (ht : k.isText = false) : RKsame a a' := by
+  refine ⟨?_, ?_⟩
+  · rw [e.elemCount]; simp [he]
+  · rw [e.noTextKid]; simp [ht]
+
+theorem Ext.elemCount_le : Rox.Lemmas.elemCount a' ≤ Rox.Lemmas.elemCount a + 1 := by
+  rw [e.elemCount]; split
+  · split <;> omega
+  · omega
+
+theorem Ext.elemCount_eq (he : k.isElement = false) :
+    Rox.Lemmas.elemCount a' = Rox.Lemmas.elemCount a := by
+  rw [e.elemCount]; simp [he]
+
+theorem Ext.noTextKid_eq (ht : k.isText = false) :
+    Rox.Lemmas.noTextKid a' = Rox.Lemmas.noTextKid a := by
+  rw [e.noTextKid]; simp [ht]
+
+end ext
+
+/-! ### Builder level: frames -/
+
+/-- The current parent is as many parent steps below node 0 as there are open elements. -/
+def DInv (c : Ctx) : Prop :=
+  ∃ n, c.parentPrefixes.length = n + 1 ∧ DepthIs c.doc.nodes n c.parentId
+
+theorem DInv.pid_ne {c : Ctx} (hd : DInv c) (h2 : 2 ≤ c.parentPrefixes.length) : c.parentId ≠ 0 := by
+  obtain ⟨n, hn, hdep⟩ := hd
+  cases n with
+  | zero => omega
+  | succ n => exact hdep.1
+
+/-- the open-element stack, the entity floor, the current parent and all parent links are kept -/
+structure KeepD (c c' : Ctx) : Prop where
+  pp : c'.parentPrefixes = c.parentPrefixes
+  floor : c'.entityFloor = c.entityFloor
+  pid : c'.parentId = c.parentId
+  mono : ParMono c.doc.nodes c'.doc.nodes
+
+theorem KeepD.refl (c : Ctx) : KeepD c c := ⟨rfl, rfl, rfl, ParMono.refl _⟩
+
+theorem KeepD.trans {a b c : Ctx} (h1 : KeepD a b) (h2 : KeepD b c) : KeepD a c :=
+  ⟨h2.pp.trans h1.pp, h2.floor.trans h1.floor, h2.pid.trans h1.pid, h1.mono.trans h2.mono⟩
+
+theorem KeepD.of_eq {c c' : Ctx} (hpp : c'.parentPrefixes = c.parentPrefixes)
+    (hf : c'.entityFloor = c.entityFloor) (hp : c'.parentId = c.parentId)
+    (hn : c'.doc.nodes = c.doc.nodes) : KeepD c c' :=
+  ⟨hpp, hf, hp, by rw [hn]; exact ParMono.refl _⟩
+
+theorem KeepD.dinv {c c' : Ctx} (k : KeepD c c') (hd : DInv c) : DInv c' := by
+  obtain ⟨n, hn, hdep⟩ := hd
+  refine ⟨n, by rw [k.pp]; exact hn, ?_⟩
+  rw [k.pid]
+  exact hdep.mono k.mono _ _
+
+theorem KeepD.len {c c' : Ctx} (k : KeepD c c') :
+    c'.parentPrefixes.length = c.parentPrefixes.length := by rw [k.pp]
+
+theorem mergeText_keep {c c' : Ctx} (h : c.mergeText = .ok c') :
+    KeepD c c' ∧ RKsame c.doc.nodes c'.doc.nodes := by
+  unfold Ctx.mergeText at h
+  dsimp only at h
+  split at h
+  · simp at h
+  · split at h
+    · simp at h
+    · rename_i n hn
+      split at h
+      · rename_i s hk
+        simp only [Res.ok.injEq] at h
+        subst h
+        have hs : SameRK c.doc.nodes (c.doc.nodes.setIfInBounds (c.doc.nodes.size - 1)
+            { n with kind := .text (.owned (c.afterText.map (·.bytes)).flatten) }) := by
+          refine sameRK_set _ _ n _ hn rfl ?_ ?_ <;> (rw [hk]; rfl)
+        exact ⟨⟨rfl, rfl, rfl, hs.parMono⟩, hs.rksame⟩
+      · simp at h
+
+theorem resetAfterText_keep {c c' : Ctx} (h : c.resetAfterText = .ok c') :
+    KeepD c c' ∧ RKsame c.doc.nodes c'.doc.nodes := by
+  unfold Ctx.resetAfterText at h
+  dsimp only at h
+  split at h
+  · simp only [Res.ok.injEq] at h; subst h; exact ⟨KeepD.refl _, RKsame.refl _⟩
+  · split at h
+    · rw [Res.bind_eq_ok] at h
+      obtain ⟨c1, h1, h⟩ := h
+      res_norm at h
+      subst h
+      obtain ⟨k1, r1⟩ := mergeText_keep h1
+      exact ⟨⟨k1.pp, k1.floor, k1.pid, k1.mono⟩, r1⟩
+    · res_norm at h; subst h; exact ⟨KeepD.of_eq rfl rfl rfl rfl, RKsame.refl _⟩
+
+theorem appendNode_keep {c c' : Ctx} {k : Kind} {r : Range} {id : Nat} (hb : BInv c)
+    (h : c.appendNode k r = .ok (c', id)) :
+    KeepD c c' ∧ Ext c.doc.nodes c'.doc.nodes c.parentId c.awaiting k ∧ id = c.doc.nodes.size := by
+  obtain ⟨e, hid, hp, _⟩ := ext_of_appendNode c c' k r id hb h
+  obtain ⟨_, _, _, _, _, _, _, hpp, _, _, hfl, _⟩ :=
+    appendNode_spec c c' k r id hb.pid_lt hb.awaiting_lt h
+  exact ⟨⟨hpp, hfl, hp, e.parMono⟩, e, hid⟩
+
+theorem appendText_keep {c c' : Ctx} {t : Str} {r : Range} (hb : BInv c)
+    (h : c.appendText t r = .ok c') :
+    KeepD c c' ∧ (c.parentId ≠ 0 → RKsame c.doc.nodes c'.doc.nodes) := by
+  unfold Ctx.appendText at h
+  dsimp only at h
+  split at h
+  · rw [Res.bind_eq_ok] at h
+    obtain ⟨⟨c2, id⟩, h2, h1⟩ := h
+    res_norm at h1
+    subst h1
+    have hb1 : BInv (c.log (Ev.textFragment t r)) := hb.congr rfl rfl rfl
+    obtain ⟨k2, e, _⟩ := appendNode_keep hb1 h2
+    exact ⟨⟨k2.pp, k2.floor, k2.pid, k2.mono⟩, fun hne => e.rksame_ne hne⟩
+  · res_norm at h
+    subst h
+    exact ⟨KeepD.of_eq rfl rfl rfl rfl, fun _ => RKsame.refl _⟩
+
+theorem flushBuffer_keep {c c' : Ctx} {b : TextBuffer} {r : Range} (hb : BInv c)
+    (h : flushBuffer c b r = .ok c') :
+    KeepD c c' ∧ (c.parentId ≠ 0 → RKsame c.doc.nodes c'.doc.nodes) := by
+  unfold flushBuffer at h
+  split at h
+  · rw [Res.bind_eq_ok] at h
+    obtain ⟨out, _, h⟩ := h
+    exact appendText_keep hb h
+  · res_norm at h; subst h; exact ⟨KeepD.refl _, fun _ => RKsame.refl _⟩
+
+theorem processCdata_keep {c c' : Ctx} {t : Span} {r : Range} (hb : BInv c)
+    (h : processCdata c t r = .ok c') :
+    KeepD c c' ∧ (c.parentId ≠ 0 → RKsame c.doc.nodes c'.doc.nodes) := by
+  unfold processCdata at h
+  split at h <;> exact appendText_keep hb h
+
+theorem resolveNamespaces_keep (c c' : Ctx) (r : Range) (h : resolveNamespaces c = .ok (c', r)) :
+    KeepD c c' ∧ c'.doc.nodes = c.doc.nodes := by
+  unfold resolveNamespaces at h
+  rw [Res.bind_eq_ok] at h
+  obtain ⟨p, _, h⟩ := h
+  split at h
+  · split at h
+    · res_norm at h; rw [← h.1]; exact ⟨KeepD.refl _, rfl⟩
+    · rw [Res.bind_eq_ok] at h
+      obtain ⟨ns, _, h⟩ := h
+      res_norm at h
+      rw [← h.1]; exact ⟨KeepD.of_eq rfl rfl rfl rfl, rfl⟩
+  · res_norm at h; rw [← h.1]; exact ⟨KeepD.refl _, rfl⟩
+
+theorem resolveAttributes_keep (txt : Bytes) (c c' : Ctx) (nss r : Range)
+    (h : resolveAttributes txt c nss = .ok (c', r)) : KeepD c c' ∧ c'.doc.nodes = c.doc.nodes := by
+  unfold resolveAttributes at h
+  split at h
+  · res_norm at h; rw [← h.1]; exact ⟨KeepD.refl _, rfl⟩
+  · split at h
+    · simp at h
+    · rw [Res.bind_eq_ok] at h
+      obtain ⟨doc, hd, h⟩ := h
+      res_norm at h
+      have := resolveAttrsLoop_nodes _ _ _ _ _ _ _ hd
+      rw [← h.1]
+      exact ⟨KeepD.of_eq rfl rfl rfl this, this⟩
+
+theorem normalizeAttribute_keep (T : Tables) (txt : Bytes) (c c' : Ctx) (v : Span) (s : Str)
+    (h : normalizeAttribute T txt c v = .ok (c', s)) : KeepD c c' ∧ c'.doc.nodes = c.doc.nodes := by
+  unfold normalizeAttribute at h
+  split at h
+  · rw [Res.bind_eq_ok] at h
+    obtain ⟨⟨buf, ld, tr⟩, _, h⟩ := h
+    rw [Res.bind_eq_ok] at h
+    obtain ⟨out, _, h⟩ := h
+    res_norm at h
+    rw [← h.1]; exact ⟨KeepD.of_eq rfl rfl rfl rfl, rfl⟩
+  · res_norm at h; rw [← h.1]; exact ⟨KeepD.refl _, rfl⟩
+
+theorem processAttribute_keep (T : Tables) (txt : Bytes) (c c' : Ctx) (r : Range) (q e : Nat)
+    (pfx loc v : Span) (h : processAttribute T txt c r q e pfx loc v = .ok c') :
+    KeepD c c' ∧ c'.doc.nodes = c.doc.nodes := by
+  unfold processAttribute at h
+  rw [Res.bind_eq_ok] at h
+  obtain ⟨⟨c1, value⟩, h1, h⟩ := h
+  obtain ⟨s1, n1⟩ := normalizeAttribute_keep _ _ _ _ _ _ h1
+  have fin : ∀ c2 : Ctx, c2.parentPrefixes = c1.parentPrefixes → c2.entityFloor = c1.entityFloor →
+      c2.parentId = c1.parentId → c2.doc.nodes = c1.doc.nodes →
+      KeepD c c2 ∧ c2.doc.nodes = c.doc.nodes :=
+    fun c2 a b d e => ⟨s1.trans (KeepD.of_eq a b d e), e.trans n1⟩
+  try dsimp only at h
+  split at h
+  · split at h
+    · exact absurd h (errPos_ne_ok _ _ _ _)
+    · split at h
+      · exact absurd h (errPos_ne_ok _ _ _ _)
+      · try dsimp only at h
+        split at h
+        · exact absurd h (errPos_ne_ok _ _ _ _)
+        · split at h
+          · exact absurd h (errPos_ne_ok _ _ _ _)
+          · rw [Res.bind_eq_ok] at h
+            obtain ⟨ex, _, h⟩ := h
+            split at h
+            · exact absurd h (errPos_ne_ok _ _ _ _)
+            · split at h
+              · rw [Res.bind_eq_ok] at h
+                obtain ⟨ns, _, h⟩ := h
+                res_norm at h; subst h
+                exact fin _ rfl rfl rfl rfl
+              · res_norm at h; subst h
+                exact fin _ rfl rfl rfl rfl
+  · split at h
+    · split at h
+      · exact absurd h (errPos_ne_ok _ _ _ _)
+      · split at h
+        · exact absurd h (errPos_ne_ok _ _ _ _)
+        · rw [Res.bind_eq_ok] at h
+          obtain ⟨ex, _, h⟩ := h
+          split at h
+          · exact absurd h (errPos_ne_ok _ _ _ _)
+          · rw [Res.bind_eq_ok] at h
+            obtain ⟨ns, _, h⟩ := h
+            res_norm at h; subst h
+            exact fin _ rfl rfl rfl rfl
+    · res_norm at h; subst h
+      exact fin _ rfl rfl rfl rfl
+
+/-! ### Builder level: what one token does -/
+
+/-- an Element node may have been added to the root's children; no Text node was -/
+def ElemUp (c c' : Ctx) : Prop :=
+  elemCount c'.doc.nodes ≤ elemCount c.doc.nodes + 1 ∧
+    noTextKid c'.doc.nodes = noTextKid c.doc.nodes
+
+def EndPost (e : EndKind) (c c' : Ctx) : Prop :=
+  match e with
+  | .open => c'.parentPrefixes.length = c.parentPrefixes.length + 1 ∧ ElemUp c c'
+  | .empty => c'.parentPrefixes.length = c.parentPrefixes.length ∧ ElemUp c c'
+  | .close _ _ => c.entityFloor < c.parentPrefixes.length ∧
+      c'.parentPrefixes.length + 1 = c.parentPrefixes.length ∧ 2 ≤ c.parentPrefixes.length
+
+def TokPost : Token → Ctx → Ctx → Prop
+  | .elementEnd e _, c, c' => EndPost e c c'
+  | .text _ _, c, c' => c'.parentPrefixes.length = c.parentPrefixes.length
+  | .cdata _ _, c, c' => c'.parentPrefixes.length = c.parentPrefixes.length
+  | _, c, c' => c'.parentPrefixes.length = c.parentPrefixes.length ∧
+      RKsame c.doc.nodes c'.doc.nodes
+
+/-- What a successful builder step guarantees. -/
+def StepPost (t : Token) (c c' : Ctx) : Prop :=
+  DInv c' ∧ c'.entityFloor = c.entityFloor ∧
+  (2 ≤ c.parentPrefixes.length → RKsame c.doc.nodes c'.doc.nodes) ∧ TokPost t c c'
+
+theorem EndPost.congr {e : EndKind} {c0 c c' : Ctx}
+    (hl : c.parentPrefixes.length = c0.parentPrefixes.length)
+    (hf : c.entityFloor = c0.entityFloor) (hr : RKsame c0.doc.nodes c.doc.nodes)
+    (h : EndPost e c c') : EndPost e c0 c' := by
+  cases e with
+  | «open» =>
+    obtain ⟨h1, h2, h3⟩ := h
+    exact ⟨by rw [h1, hl], by rw [← hr.1]; exact h2, by rw [← hr.2]; exact h3⟩
+  | empty =>
+    obtain ⟨h1, h2, h3⟩ := h
+    exact ⟨by rw [h1, hl], by rw [← hr.1]; exact h2, by rw [← hr.2]; exact h3⟩
+  | close p l =>
+    obtain ⟨h1, h2, h3⟩ := h
+    exact ⟨by rw [← hl, ← hf]; exact h1, by rw [← hl]; exact h2, by rw [← hl]; exact h3⟩
+
+theorem processElement_step {txt : Bytes} {c c' : Ctx} {e : EndKind} {r : Range} (hb : BInv c)
+    (hd : DInv c) (h : processElement txt c e r = .ok c') :
+    DInv c' ∧ c'.entityFloor = c.entityFloor ∧
+      (2 ≤ c.parentPrefixes.length → RKsame c.doc.nodes c'.doc.nodes) ∧ EndPost e c c' := by
+  unfold processElement at h
+  split at h
+  · split at h
+    · exact absurd h (errPos_ne_ok _ _ _ _)
+    · simp at h
+  · rw [Res.bind_eq_ok] at h
+    obtain ⟨⟨c1, nss⟩, h1, h⟩ := h
+    try dsimp only at h
+    rw [Res.bind_eq_ok] at h
+    obtain ⟨⟨c2, attrs⟩, h2, h⟩ := h
+    have t1 := resolveNamespaces_triEq _ _ _ h1
+    have t2 := resolveAttributes_triEq _ _ _ _ _ h2
+    have hb2 : BInv c2 := t2.binv ((t1.binv hb).congr rfl rfl rfl)
+    obtain ⟨k1, n1⟩ := resolveNamespaces_keep _ _ _ h1
+    obtain ⟨k2, n2⟩ := resolveAttributes_keep _ _ _ _ _ h2
+    have k12 : KeepD c c2 :=
+      ⟨k2.pp.trans k1.pp, k2.floor.trans k1.floor, k2.pid.trans k1.pid, k1.mono.trans k2.mono⟩
+    have n12 : c2.doc.nodes = c.doc.nodes := n2.trans n1
+    have hd2 : DInv c2 := k12.dinv hd
+    try dsimp only at h
+    split at h
+    · -- empty element
+      rw [Res.bind_eq_ok] at h
+      obtain ⟨tagNs, _, h⟩ := h
+      rw [Res.bind_eq_ok] at h
+      obtain ⟨⟨c3, newId⟩, h3, h⟩ := h
+      res_norm at h
+      subst h
+      obtain ⟨k3, ex, _⟩ := appendNode_keep hb2 h3
+      have k13 := k12.trans k3
+      refine ⟨?_, k13.floor, ?_, ?_, ?_, ?_⟩
+      · exact (KeepD.dinv (c' := { c3 with awaiting := c3.awaiting ++ [newId] })
+          (k13.trans (KeepD.of_eq rfl rfl rfl rfl)) hd)
+      · intro h2'
+        rw [← n12]
+        exact ex.rksame_ne (hd2.pid_ne (by rw [k12.len]; exact h2'))
+      · exact k13.len
+      · rw [← n12]; exact ex.elemCount_le
+      · rw [← n12]; exact ex.noTextKid_eq rfl
+    · -- close tag
+      split at h
+      · exact absurd h (errPos_ne_ok _ _ _ _)
+      · rename_i hfloor
+        rw [Res.bind_eq_ok] at h
+        obtain ⟨p, hp, h⟩ := h
+        split at h
+        · simp at h
+        · rename_i parentPrefix restPrefixes hpp
+          split at h
+          · exact absurd h (errPos_ne_ok _ _ _ _)
+          · split at h
+            · rename_i id hid
+              res_norm at h
+              subst h
+              have hpn : c2.doc.nodes[c2.parentId]? = some p := by
+                unfold Ctx.nodeAt at hp
+                split at hp <;> simp at hp
+                subst hp; assumption
+              let pnew : NodeData := if c2.positions = true then
+                { p with range := (p.range.1, r.2) } else p
+              have hpar : pnew.parent = p.parent := by simp only [pnew]; split <;> rfl
+              have hsl : SameRK c2.doc.nodes (c2.setNode c2.parentId pnew).doc.nodes := by
+                show SameRK c2.doc.nodes (c2.doc.nodes.setIfInBounds _ _)
+                refine sameRK_set _ _ p _ hpn hpar ?_ ?_ <;> (simp only [pnew]; split <;> rfl)
+              have hq : par c2.doc.nodes c2.parentId = some id := by
+                simp only [Spec.par, hpn, Option.bind_some]
+                rw [← hpar]; exact hid
+              obtain ⟨n, hn, hdep⟩ := hd2
+              have hlen2 : c2.parentPrefixes.length = restPrefixes.length + 1 := by
+                rw [hpp]; rfl
+              have hfl : c2.entityFloor < c2.parentPrefixes.length := by omega
+              cases n with
+              | zero =>
+                exfalso
+                have h0 : c2.parentId = 0 := hdep
+                rw [h0] at hq
+                rw [hb2.wf.root.1] at hq
+                simp at hq
+              | succ n =>
+                obtain ⟨_, q, hq', hdq⟩ := hdep
+                have hqid : q = id := by rw [hq] at hq'; simpa using hq'.symm
+                subst hqid
+                have hrk : RKsame c.doc.nodes (c2.setNode c2.parentId pnew).doc.nodes := by
+                  rw [← n12]; exact hsl.rksame
+                refine ⟨⟨n, ?_, ?_⟩, ?_, fun _ => hrk, ?_, ?_, ?_⟩
+                · show restPrefixes.length = n + 1
+                  omega
+                · exact hdq.mono hsl.parMono _ _
+                · exact k12.floor
+                · rw [← k12.floor, ← k12.len]; exact hfl
+                · show restPrefixes.length + 1 = _
+                  rw [← k12.len]; omega
+                · rw [← k12.len]; omega
+            · exact absurd h (errPos_ne_ok _ _ _ _)
+    · -- open element
+      rw [Res.bind_eq_ok] at h
+      obtain ⟨tagNs, _, h⟩ := h
+      rw [Res.bind_eq_ok] at h
+      obtain ⟨⟨c3, newId⟩, h3, h⟩ := h
+      res_norm at h
+      subst h
+      obtain ⟨k3, ex, hid⟩ := appendNode_keep hb2 h3
+      have k13 := k12.trans k3
+      obtain ⟨n, hn, hdep⟩ := k13.dinv hd
+      refine ⟨⟨n + 1, ?_, ?_, c2.parentId, ?_, ?_⟩, k13.floor, ?_, ?_, ?_, ?_⟩
+      · show c3.parentPrefixes.length + 1 = n + 1 + 1
+        omega
+      · show newId ≠ 0
+        have := hb2.pid_lt; omega
+      · show par c3.doc.nodes newId = some c2.parentId
+        rw [hid]; exact ex.par_new
+      · rw [← k3.pid]; exact hdep
+      · intro h2'
+        rw [← n12]
+        exact ex.rksame_ne (hd2.pid_ne (by rw [k12.len]; exact h2'))
+      · show c3.parentPrefixes.length + 1 = _
+        rw [k13.len]
+      · rw [← n12]; exact ex.elemCount_le
+      · rw [← n12]; exact ex.noTextKid_eq rfl
+
+/-! ### Builder level: nested activations -/
+
+theorem DInv.congr {c c' : Ctx} (hd : DInv c) (hpp : c'.parentPrefixes = c.parentPrefixes)
+    (hn : c'.doc.nodes = c.doc.nodes) (hp : c'.parentId = c.parentId) : DInv c' := by
+  unfold DInv; rw [hpp, hn, hp]; exact hd
+
+/-- what is proved of a builder `step` -/
+def StepSpec (step : Token → Ctx → Res Ctx) : Prop :=
+  ∀ (t : Token) (c c' : Ctx), BInv c → DInv c → step t c = .ok c' → StepPost t c c'
+
+theorem TokPost.floor_le {t : Token} {c c' : Ctx} (h : TokPost t c c')
+    (hf : c.entityFloor ≤ c.parentPrefixes.length) : c.entityFloor ≤ c'.parentPrefixes.length := by
+  cases t with
+  | elementEnd e r =>
+    cases e with
+    | «open» => have := h.1; omega
+    | empty => have := h.1; omega
+    | close p l => obtain ⟨h1, h2, _⟩ := h; omega
+  | text _ _ => have : c'.parentPrefixes.length = c.parentPrefixes.length := h; omega
+  | cdata _ _ => have : c'.parentPrefixes.length = c.parentPrefixes.length := h; omega
+  | pi _ _ _ => have := h.1; omega
+  | comment _ _ => have := h.1; omega
+  | entityDecl _ _ => have := h.1; omega
+  | elementStart _ _ _ => have := h.1; omega
+  | «attribute» _ _ _ _ _ _ => have := h.1; omega
+
+/-- Inside the expansion of an entity (floor ≥ 2): the stack never goes below the floor, so the
+current parent is never node 0 and the root's children are left alone. -/
+theorem nested_feed (step : Token → Ctx → Res Ctx)
+    (hB : ∀ t c c', BInv c → step t c = .ok c' → BInv c') (hS : StepSpec step) :
+    ∀ (toks : List Token) (c c' : Ctx), BInv c → DInv c →
+      c.entityFloor ≤ c.parentPrefixes.length → feed step toks c = .ok c' →
+      DInv c' ∧ c'.entityFloor = c.entityFloor ∧ c.entityFloor ≤ c'.parentPrefixes.length ∧
+        (2 ≤ c.entityFloor → RKsame c.doc.nodes c'.doc.nodes) := by
+  intro toks
+  induction toks with
+  | nil =>
+    intro c c' _ hd hf h
+    simp [feed] at h
+    subst h
+    exact ⟨hd, rfl, hf, fun _ => RKsame.refl _⟩
+  | cons t ts ih =>
+    intro c c' hb hd hf h
+    simp only [feed] at h
+    split at h
+    · rename_i c1 h1
+      obtain ⟨hd1, hf1, hr1, hp1⟩ := hS t c c1 hb hd h1
+      have hle1 := hp1.floor_le hf
+      obtain ⟨hd', hf', hle', hr'⟩ := ih c1 c' (hB _ _ _ hb h1) hd1 (by rw [hf1]; exact hle1) h
+      refine ⟨hd', hf'.trans hf1, by rw [← hf1]; exact hle', fun h2 => ?_⟩
+      exact (hr1 (by omega)).trans (hr' (by rw [hf1]; exact h2))
+    · simp at h
+    · simp at h
+    · simp at h
+
+theorem runTokens_feed {α} (step : Token → Ctx → Res Ctx) (toks : List Token) (stop : Res α)
+    (c c' : Ctx) (h : runTokens step toks stop c = .ok c') :
+    (∃ s, stop = .ok s) ∧ feed step toks c = .ok c' := by
+  unfold runTokens at h
+  split at h
+  · rename_i c1 h1
+    split at h <;> simp at h
+    subst h
+    exact ⟨⟨_, rfl⟩, h1⟩
+  · rename_i hne
+    cases hf : feed step toks c <;> simp_all
+
+section
+variable (T : Tables) (txt : Bytes)
+
+theorem step_processTextLoop (lower : Token → Ctx → Res Ctx)
+    (hlowerB : ∀ t c c', BInv c → lower t c = .ok c' → BInv c') (hlower : StepSpec lower)
+    (range : Range) :
+    ∀ (fuel : Nat) (s : Stream) (buf buf' : TextBuffer) (c c' : Ctx), BInv c → DInv c →
+      processTextLoop T txt lower range fuel s buf c = .ok (buf', c') →
+      BInv c' ∧ DInv c' ∧ c'.entityFloor = c.entityFloor ∧
+        c'.parentPrefixes.length = c.parentPrefixes.length ∧
+        (2 ≤ c.parentPrefixes.length → RKsame c.doc.nodes c'.doc.nodes) := by
+  intro fuel
+  induction fuel with
+  | zero => intro s buf buf' c c' _ _ h; simp [processTextLoop] at h
+  | succ fuel ih =>
+    intro s buf buf' c c' hb hd h
+    simp only [processTextLoop] at h
+    split at h
+    · res_norm at h; rw [← h.2]; exact ⟨hb, hd, rfl, rfl, fun _ => RKsame.refl _⟩
+    · rw [Res.bind_eq_ok] at h
+      obtain ⟨⟨s1, chunk⟩, hpc, h⟩ := h
+      try dsimp only at h
+      split at h
+      · exact ih _ _ _ _ _ hb hd h
+      · try dsimp only at h
+        split at h <;> exact ih _ _ _ _ _ hb hd h
+      · rename_i frag
+        rw [Res.bind_eq_ok] at h
+        obtain ⟨c1, hfl, h⟩ := h
+        have hb1 := binv_flushBuffer hb hfl
+        obtain ⟨k1, r1⟩ := flushBuffer_keep hb hfl
+        have hd1 := k1.dinv hd
+        split at h
+        · exact absurd h (errAt_ne_ok _ _ _ _)
+        · try dsimp only at h
+          split at h
+          · exact absurd h (errAt_ne_ok _ _ _ _)
+          · try dsimp only at h
+            rw [Res.bind_eq_ok] at h
+            obtain ⟨c2, hrun, h⟩ := h
+            have hb2 : BInv c2 := by
+              refine binv_runTokens lower hlowerB _ _ _ _ ?_ hrun
+              exact hb1.congr rfl rfl rfl
+            obtain ⟨_, hfeed⟩ := runTokens_feed _ _ _ _ _ hrun
+            have hnf := fun hB hD hF => nested_feed lower hlowerB hlower _ _ _ hB hD hF hfeed
+            obtain ⟨hd2, hf2, hle2, hr2⟩ := hnf (hb1.congr rfl rfl rfl) (hd1.congr rfl rfl rfl)
+              (Nat.le_refl _)
+            split at h
+            · simp at h
+            · rename_i hne
+              have hlen2 : c2.parentPrefixes.length = c1.parentPrefixes.length := by
+                have : c2.parentPrefixes.length = c2.entityFloor := by simpa using hne
+                rw [this, hf2]; rfl
+              have hih := fun hB hD => ih _ _ _ _ _ hB hD h
+              obtain ⟨hb', hd', hf', hl', hr'⟩ := hih (hb2.congr rfl rfl rfl)
+                (hd2.congr rfl rfl rfl)
+              refine ⟨hb', hd', ?_, ?_, ?_⟩
+              · rw [hf']; exact k1.floor
+              · rw [hl']; show c2.parentPrefixes.length = _; rw [hlen2, k1.len]
+              · intro h2
+                have h21 : 2 ≤ c1.parentPrefixes.length := by rw [k1.len]; exact h2
+                exact ((r1 (hd.pid_ne h2)).trans (hr2 h21)).trans
+                  (hr' (by show 2 ≤ c2.parentPrefixes.length; rw [hlen2]; exact h21))
+
+theorem step_processText (lower : Token → Ctx → Res Ctx)
+    (hlowerB : ∀ t c c', BInv c → lower t c = .ok c' → BInv c') (hlower : StepSpec lower)
+    (c c' : Ctx) (t : Span) (r : Range) (hb : BInv c) (hd : DInv c)
+    (h : processText T txt lower c t r = .ok c') :
+    DInv c' ∧ c'.entityFloor = c.entityFloor ∧
+      c'.parentPrefixes.length = c.parentPrefixes.length ∧
+      (2 ≤ c.parentPrefixes.length → RKsame c.doc.nodes c'.doc.nodes) := by
+  unfold processText at h
+  split at h
+  · obtain ⟨k1, r1⟩ := appendText_keep hb h
+    exact ⟨k1.dinv hd, k1.floor, k1.len, fun h2 => r1 (hd.pid_ne h2)⟩
+  · try dsimp only at h
+    rw [Res.bind_eq_ok] at h
+    obtain ⟨⟨buf, c1⟩, h1, h⟩ := h
+    obtain ⟨hb1, hd1, hf1, hl1, hr1⟩ :=
+      step_processTextLoop T txt lower hlowerB hlower _ _ _ _ _ _ _ hb hd h1
+    obtain ⟨k2, r2⟩ := flushBuffer_keep hb1 h
+    refine ⟨k2.dinv hd1, k2.floor.trans hf1, k2.len.trans hl1, fun h2 => ?_⟩
+    exact (hr1 h2).trans (r2 (hd1.pid_ne (by rw [hl1]; exact h2)))
+
+end
+
+section
+variable (T : Tables) (txt : Bytes)
+
+theorem leaf_post {c c1 c2 : Ctx} {k : Kind} {r : Range} {id : Nat} (hb : BInv c) (hd : DInv c)
+    (he : k.isElement = false) (ht : k.isText = false)
+    (h1 : c.resetAfterText = .ok c1) (h2 : c1.appendNode k r = .ok (c2, id)) :
+    DInv c2 ∧ c2.entityFloor = c.entityFloor ∧
+      c2.parentPrefixes.length = c.parentPrefixes.length ∧ RKsame c.doc.nodes c2.doc.nodes := by
+  obtain ⟨k1, r1⟩ := resetAfterText_keep h1
+  obtain ⟨k2, ex, _⟩ := appendNode_keep (binv_resetAfterText hb h1) h2
+  have k12 := k1.trans k2
+  exact ⟨k12.dinv hd, k12.floor, k12.len, r1.trans (ex.rksame_leaf he ht)⟩
+
+theorem stepSpec_tokenStep (lower : Token → Ctx → Res Ctx)
+    (hlowerB : ∀ t c c', BInv c → lower t c = .ok c' → BInv c') (hlower : StepSpec lower) :
+    StepSpec (tokenStep T txt lower) := by
+  intro t c c' hb hd h
+  unfold tokenStep at h
+  dsimp only at h
+  have hb0 : BInv (c.log (.token t)) := hb.congr rfl rfl rfl
+  have hd0 : DInv (c.log (.token t)) := hd.congr rfl rfl rfl
+  split at h
+  · -- pi
+    rw [Res.bind_eq_ok] at h
+    obtain ⟨c1, h1, h⟩ := h
+    rw [Res.bind_eq_ok] at h
+    obtain ⟨⟨c2, id⟩, h2, h⟩ := h
+    res_norm at h; subst h
+    obtain ⟨a1, a2, a3, a4⟩ := leaf_post hb0 hd0 rfl rfl h1 h2
+    exact ⟨a1, a2, fun _ => a4, a3, a4⟩
+  · -- comment
+    rw [Res.bind_eq_ok] at h
+    obtain ⟨c1, h1, h⟩ := h
+    rw [Res.bind_eq_ok] at h
+    obtain ⟨⟨c2, id⟩, h2, h⟩ := h
+    res_norm at h; subst h
+    obtain ⟨a1, a2, a3, a4⟩ := leaf_post hb0 hd0 rfl rfl h1 h2
+    exact ⟨a1, a2, fun _ => a4, a3, a4⟩
+  · -- entityDecl
+    res_norm at h; subst h
+    exact ⟨hd.congr rfl rfl rfl, rfl, fun _ => RKsame.refl _, rfl, RKsame.refl _⟩
+  · -- elementStart
+    rw [Res.bind_eq_ok] at h
+    obtain ⟨c1, h1, h⟩ := h
+    split at h
+    · exact absurd h (errPos_ne_ok _ _ _ _)
+    · res_norm at h; subst h
+      obtain ⟨k1, r1⟩ := resetAfterText_keep h1
+      exact ⟨(k1.dinv hd0).congr rfl rfl rfl, k1.floor, fun _ => r1, k1.len, r1⟩
+  · -- attribute
+    obtain ⟨k1, n1⟩ := processAttribute_keep _ _ _ _ _ _ _ _ _ _ h
+    have r1 : RKsame c.doc.nodes c'.doc.nodes := by rw [n1]; exact RKsame.refl _
+    exact ⟨k1.dinv hd0, k1.floor, fun _ => r1, k1.len, r1⟩
+  · -- elementEnd
+    rw [Res.bind_eq_ok] at h
+    obtain ⟨c1, h1, h⟩ := h
+    obtain ⟨k1, r1⟩ := resetAfterText_keep h1
+    obtain ⟨a1, a2, a3, a4⟩ := processElement_step (binv_resetAfterText hb0 h1) (k1.dinv hd0) h
+    refine ⟨a1, a2.trans k1.floor, fun h2 => ?_, ?_⟩
+    · exact r1.trans (a3 (by rw [k1.len]; exact h2))
+    · exact EndPost.congr (c0 := c) k1.len k1.floor r1 a4
+  · -- text
+    obtain ⟨a1, a2, a3, a4⟩ := step_processText T txt lower hlowerB hlower _ _ _ _ hb0 hd0 h
+    exact ⟨a1, a2, a4, a3⟩
+  · -- cdata
+    obtain ⟨k1, r1⟩ := processCdata_keep hb0 h
+    exact ⟨k1.dinv hd0, k1.floor, fun h2 => r1 (hd.pid_ne h2), k1.len⟩
+
+theorem stepSpec_token : ∀ (d : Nat), StepSpec (token T txt d) := by
+  intro d
+  induction d with
+  | zero => intro t c c' _ _ h; simp [token] at h
+  | succ d ih => exact stepSpec_tokenStep T txt (token T txt d) (binv_token T txt d) ih
+
+end
+
+/-! ### The document grammar: nesting depth and "a top-level element has been seen" -/
+
+abbrev DSt := Nat × Bool
+
+/-- The depth automaton. `Text`/`Cdata`/close tags need an open element; a top-level element
+(`ElementEnd(Open|Empty)` at depth 0) is accepted once. -/
+def dStep : DSt → Token → Option DSt
+  | (n, s), .elementEnd .open _ =>
+    if n = 0 then (if s then none else some (1, true)) else some (n + 1, s)
+  | (n, s), .elementEnd .empty _ =>
+    if n = 0 then (if s then none else some (0, true)) else some (n, s)
+  | (n, s), .elementEnd (.close _ _) _ => if n = 0 then none else some (n - 1, s)
+  | (n, s), .text _ _ => if n = 0 then none else some (n, s)
+  | (n, s), .cdata _ _ => if n = 0 then none else some (n, s)
+  | st, _ => some st
+
+def dRun : DSt → List Token → Option DSt
+  | st, [] => some st
+  | st, t :: ts =>
+    match dStep st t with
+    | some st' => dRun st' ts
+    | none => none
+
+theorem dRun_append (st : DSt) (l1 l2 : List Token) :
+    dRun st (l1 ++ l2) = (dRun st l1).bind (fun s1 => dRun s1 l2) := by
+  induction l1 generalizing st with
+  | nil => simp [dRun]
+  | cons t ts ih =>
+    simp only [List.cons_append, dRun]
+    cases dStep st t with
+    | none => simp
+    | some st' => exact ih st'
+
+/-- The builder at the top level, relative to the automaton state. -/
+def TopInv (st : DSt) (c : Ctx) : Prop :=
+  c.parentPrefixes.length = st.1 + 1 ∧ elemCount c.doc.nodes ≤ 1 ∧
+    (st.2 = false → elemCount c.doc.nodes = 0) ∧ noTextKid c.doc.nodes = true
+
+theorem TopInv.of_same {n n' : Nat} {s : Bool} {c c' : Ctx} (h : TopInv (n, s) c)
+    (hl : c'.parentPrefixes.length = n' + 1) (hr : RKsame c.doc.nodes c'.doc.nodes) :
+    TopInv (n', s) c' := by
+  obtain ⟨_, h2, h3, h4⟩ := h
+  exact ⟨hl, by rw [hr.1]; exact h2, by rw [hr.1]; exact h3, by rw [hr.2]; exact h4⟩
+
+theorem top_step {t : Token} {st st1 : DSt} {c c1 : Ctx} (hs : dStep st t = some st1)
+    (ht : TopInv st c) (hp : StepPost t c c1) : TopInv st1 c1 := by
+  obtain ⟨n, s⟩ := st
+  obtain ⟨_, _, hr, hp⟩ := hp
+  have hL : c.parentPrefixes.length = n + 1 := ht.1
+  cases t with
+  | elementEnd e r =>
+    cases e with
+    | «open» =>
+      obtain ⟨hl1, hu1, hu2⟩ := hp
+      by_cases hn : n = 0
+      · subst hn
+        cases s with
+        | true => simp [dStep] at hs
+        | false =>
+          simp [dStep] at hs; subst hs
+          obtain ⟨_, h2, h3, h4⟩ := ht
+          have := h3 rfl
+          exact ⟨by rw [hl1, hL], by omega, fun h => by simp at h, by rw [hu2]; exact h4⟩
+      · simp [dStep, hn] at hs; subst hs
+        exact ht.of_same (by rw [hl1, hL]) (hr (by omega))
+    | empty =>
+      obtain ⟨hl1, hu1, hu2⟩ := hp
+      by_cases hn : n = 0
+      · subst hn
+        cases s with
+        | true => simp [dStep] at hs
+        | false =>
+          simp [dStep] at hs; subst hs
+          obtain ⟨_, h2, h3, h4⟩ := ht
+          have := h3 rfl
+          exact ⟨by rw [hl1, hL], by omega, fun h => by simp at h, by rw [hu2]; exact h4⟩
+      · simp [dStep, hn] at hs; subst hs
+        exact ht.of_same (by rw [hl1, hL]) (hr (by omega))
+    | close p l =>
+      obtain ⟨_, hl1, h2⟩ := hp
+      by_cases hn : n = 0
+      · simp [dStep, hn] at hs
+      · simp [dStep, hn] at hs; subst hs
+        exact ht.of_same (by omega) (hr h2)
+  | text _ _ =>
+    have hl1 : c1.parentPrefixes.length = c.parentPrefixes.length := hp
+    by_cases hn : n = 0
+    · simp [dStep, hn] at hs
+    · simp [dStep, hn] at hs; subst hs
+      exact ht.of_same (by omega) (hr (by omega))
+  | cdata _ _ =>
+    have hl1 : c1.parentPrefixes.length = c.parentPrefixes.length := hp
+    by_cases hn : n = 0
+    · simp [dStep, hn] at hs
+    · simp [dStep, hn] at hs; subst hs
+      exact ht.of_same (by omega) (hr (by omega))
+  | pi _ _ _ =>
+    simp [dStep] at hs; subst hs; exact ht.of_same (by rw [hp.1, hL]) hp.2
+  | comment _ _ =>
+    simp [dStep] at hs; subst hs; exact ht.of_same (by rw [hp.1, hL]) hp.2
+  | entityDecl _ _ =>
+    simp [dStep] at hs; subst hs; exact ht.of_same (by rw [hp.1, hL]) hp.2
+  | elementStart _ _ _ =>
+    simp [dStep] at hs; subst hs; exact ht.of_same (by rw [hp.1, hL]) hp.2
+  | «attribute» _ _ _ _ _ _ =>
+    simp [dStep] at hs; subst hs; exact ht.of_same (by rw [hp.1, hL]) hp.2
+
+theorem top_feed (step : Token → Ctx → Res Ctx)
+    (hB : ∀ t c c', BInv c → step t c = .ok c' → BInv c') (hS : StepSpec step) :
+    ∀ (toks : List Token) (st ste : DSt) (c c' : Ctx), dRun st toks = some ste → BInv c →
+      DInv c → TopInv st c → feed step toks c = .ok c' → TopInv ste c' := by
+  intro toks
+  induction toks with
+  | nil =>
+    intro st ste c c' hrun _ _ ht h
+    simp only [dRun, Option.some.injEq] at hrun
+    simp [feed] at h
+    subst h; subst hrun; exact ht
+  | cons t ts ih =>
+    intro st ste c c' hrun hb hd ht h
+    simp only [dRun] at hrun
+    cases hps : dStep st t with
+    | none => rw [hps] at hrun; simp at hrun
+    | some st1 =>
+      rw [hps] at hrun
+      simp only at hrun
+      simp only [feed] at h
+      split at h
+      · rename_i c1 h1
+        have hp := hS t c c1 hb hd h1
+        exact ih st1 ste c1 c' hrun (hB _ _ _ hb h1) hp.1 (top_step hps ht hp) h
+      · simp at h
+      · simp at h
+      · simp at h
+
+/-! ### The tokenizer obeys the document grammar -/
+
+open Rox.TM in
+/-- From state `st` the depth automaton accepts every token `m` delivers; if `m` succeeds with `a`
+the final state satisfies `P a`. -/
+def DF {α} (m : TM α) (st : DSt) (P : α → DSt → Prop) : Prop :=
+  ∃ ste, dRun st m.1 = some ste ∧ (∀ a, m.2 = .ok a → P a ste)
+
+section df
+open Rox.TM
+
+theorem df_pure {α} (a : α) (st : DSt) (P : α → DSt → Prop) (h : P a st) :
+    DF (pure a : TM α) st P :=
+  ⟨st, by simp [pure, pure', dRun], fun b hb => by
+    simp [pure, pure'] at hb; subst hb; exact h⟩
+
+theorem df_lift {α} (r : Res α) (st : DSt) (P : α → DSt → Prop) (h : ∀ a, r = .ok a → P a st) :
+    DF (lift r) st P :=
+  ⟨st, by simp [lift, dRun], fun a ha => h a (by simpa [lift] using ha)⟩
+
+theorem df_emit (t : Token) (st st' : DSt) (P : Unit → DSt → Prop) (h : dStep st t = some st')
+    (hP : P () st') : DF (emit t) st P :=
+  ⟨st', by simp [emit, dRun, h], fun _ _ => hP⟩
+
+theorem df_bind {α β} (m : TM α) (k : α → TM β) (st : DSt) (P : α → DSt → Prop)
+    (Q : β → DSt → Prop) (hm : DF m st P) (hk : ∀ a st1, P a st1 → DF (k a) st1 Q) :
+    DF (m >>= k) st Q := by
+  obtain ⟨t1, r⟩ := m
+  obtain ⟨ste, hrun, hq⟩ := hm
+  cases r with
+  | ok a =>
+    obtain ⟨ste2, hrun2, hq2⟩ := hk a ste (hq a rfl)
+    simp only [bind, bind']
+    refine ⟨ste2, ?_, hq2⟩
+    rw [dRun_append]
+    simp only at hrun
+    rw [hrun]
+    exact hrun2
+  | err e => simp only [bind, bind']; exact ⟨ste, hrun, fun a ha => by simp at ha⟩
+  | panic s => simp only [bind, bind']; exact ⟨ste, hrun, fun a ha => by simp at ha⟩
+  | fuel => simp only [bind, bind']; exact ⟨ste, hrun, fun a ha => by simp at ha⟩
+
+theorem df_bind_lift {α β} (r : Res α) (k : α → TM β) (st : DSt) (Q : β → DSt → Prop)
+    (hk : ∀ a, DF (k a) st Q) : DF (lift r >>= k) st Q :=
+  df_bind _ _ _ (fun _ s => s = st) _ (df_lift _ _ _ (fun _ _ => rfl))
+    (fun a st1 h => by subst h; exact hk a)
+
+theorem df_mono {α} {m : TM α} {st : DSt} {P Q : α → DSt → Prop} (h : DF m st P)
+    (hPQ : ∀ a s, P a s → Q a s) : DF m st Q := by
+  obtain ⟨ste, h1, h2⟩ := h
+  exact ⟨ste, h1, fun a ha => hPQ a ste (h2 a ha)⟩
+
+theorem dRun_neutral (st : DSt) (K : Token → Prop) (hK : ∀ t, K t → dStep st t = some st) :
+    ∀ (l : List Token), (∀ t ∈ l, K t) → dRun st l = some st := by
+  intro l
+  induction l with
+  | nil => intro _; rfl
+  | cons t ts ih =>
+    intro h
+    simp only [dRun, hK t (h t (by simp))]
+    exact ih (fun t' ht' => h t' (by simp [ht']))
+
+/-- A computation all of whose tokens leave the state `st` alone. -/
+theorem df_neutral {α} (m : TM α) (st : DSt) (K : Token → Prop)
+    (hK : ∀ t, K t → dStep st t = some st) (hm : Emits m K) : DF m st (fun _ s => s = st) :=
+  ⟨st, dRun_neutral st K hK m.1 hm, fun _ _ => rfl⟩
+
+theorem dStep_misc (st : DSt) (t : Token) (h : t.isMisc = true ∨ t.isEntityDecl = true) :
+    dStep st t = some st := by
+  obtain ⟨n, s⟩ := st
+  cases t <;> simp [Token.isMisc, Token.isEntityDecl] at h <;> simp [dStep]
+
+variable (T : Tables) (txt : Bytes)
+
+theorem parseComment_df (s : Stream) (st : DSt) :
+    DF (parseComment T txt s) st (fun _ s' => s' = st) :=
+  df_neutral _ st (fun t => t.isMisc = true) (fun t h => dStep_misc st t (Or.inl h))
+    (parseComment_emits T txt _ (fun _ _ => rfl) s)
+
+theorem parsePi_df (s : Stream) (st : DSt) :
+    DF (parsePi T txt s) st (fun _ s' => s' = st) :=
+  df_neutral _ st (fun t => t.isMisc = true) (fun t h => dStep_misc st t (Or.inl h))
+    (parsePi_emits T txt _ (fun _ _ _ => rfl) s)
+
+theorem parseMisc_df (fuel : Nat) (s : Stream) (st : DSt) :
+    DF (parseMisc T txt fuel s) st (fun _ s' => s' = st) :=
+  df_neutral _ st (fun t => t.isMisc = true) (fun t h => dStep_misc st t (Or.inl h))
+    (parseMisc_emits T txt _ (fun _ _ => rfl) (fun _ _ _ => rfl) fuel s)
+
+theorem parseProlog_df (st : DSt) : DF (parseProlog T txt) st (fun _ s' => s' = st) :=
+  df_neutral _ st (fun t => t.isMisc = true) (fun t h => dStep_misc st t (Or.inl h))
+    (parseProlog_emits T txt)
+
+theorem parseDoctype_df (s : Stream) (st : DSt) :
+    DF (parseDoctype T txt s) st (fun _ s' => s' = st) :=
+  df_neutral _ st _ (fun t h => dStep_misc st t h) (parseDoctype_kinds T txt s)
+
+theorem parseText_df (s : Stream) (n : Nat) (sn : Bool) :
+    DF (parseText T txt s) (n + 1, sn) (fun _ s' => s' = (n + 1, sn)) :=
+  df_neutral _ _ (fun t => ∃ a b, t = .text a b)
+    (fun t h => by obtain ⟨a, b, rfl⟩ := h; simp [dStep])
+    (parseText_emits T txt _ (fun a b => ⟨a, b, rfl⟩) s)
+
+theorem parseCdata_df (s : Stream) (n : Nat) (sn : Bool) :
+    DF (parseCdata T txt s) (n + 1, sn) (fun _ s' => s' = (n + 1, sn)) :=
+  df_neutral _ _ (fun t => ∃ a b, t = .cdata a b)
+    (fun t h => by obtain ⟨a, b, rfl⟩ := h; simp [dStep])
+    (parseCdata_emits T txt _ (fun a b => ⟨a, b, rfl⟩) s)
+
+theorem parseCloseElement_df (s : Stream) (n : Nat) (sn : Bool) :
+    DF (parseCloseElement T txt s) (n + 1, sn) (fun _ s' => s' = (n, sn)) := by
+  unfold parseCloseElement
+  apply df_bind_lift; intro s1
+  apply df_bind_lift; rintro ⟨s2, pfx, loc⟩
+  apply df_bind_lift; intro s3
+  refine df_bind _ _ _ (fun _ s' => s' = (n, sn)) _ (df_emit _ _ (n, sn) _ (by simp [dStep]) rfl) ?_
+  intro _ st1 h1
+  subst h1
+  exact df_pure _ _ _ rfl
+
+/-- The attribute loop: `Attribute` tokens leave the state alone; the closing `ElementEnd` counts
+the element if it is a top-level one. -/
+theorem startTagLoop_df :
+    ∀ (fuel : Nat) (s : Stream) (n : Nat) (sn : Bool), (n = 0 → sn = false) →
+      DF (startTagLoop T txt fuel s) (n, sn)
+        (fun p st => ∀ o, p.2 = some o → st.1 = if o then n + 1 else n) := by
+  intro fuel
+  induction fuel with
+  | zero => intro s n sn _; unfold startTagLoop; exact df_lift _ _ _ (by simp)
+  | succ f ih =>
+    intro s n sn hsn
+    unfold startTagLoop
+    split
+    · exact df_pure _ _ _ (by simp)
+    · dsimp only
+      apply df_bind_lift; intro c
+      split
+      · apply df_bind_lift; intro s1
+        apply df_bind_lift; intro s2
+        by_cases hn : n = 0
+        · have := hsn hn; subst this; subst hn
+          refine df_bind _ _ _ (fun _ s' => s' = (0, true)) _
+            (df_emit _ _ (0, true) _ (by simp [dStep]) rfl) ?_
+          intro _ st1 h1; subst h1
+          exact df_pure _ _ _ (by simp)
+        · refine df_bind _ _ _ (fun _ s' => s' = (n, sn)) _
+            (df_emit _ _ (n, sn) _ (by simp [dStep, hn]) rfl) ?_
+          intro _ st1 h1; subst h1
+          exact df_pure _ _ _ (by simp)
+      · split
+        · apply df_bind_lift; intro s1
+          by_cases hn : n = 0
+          · have := hsn hn; subst this; subst hn
+            refine df_bind _ _ _ (fun _ s' => s' = (1, true)) _
+              (df_emit _ _ (1, true) _ (by simp [dStep]) rfl) ?_
+            intro _ st1 h1; subst h1
+            exact df_pure _ _ _ (by simp)
+          · refine df_bind _ _ _ (fun _ s' => s' = (n + 1, sn)) _
+              (df_emit _ _ (n + 1, sn) _ (by simp [dStep, hn]) rfl) ?_
+            intro _ st1 h1; subst h1
+            exact df_pure _ _ _ (by simp)
+        · apply df_bind_lift; intro s1
+          apply df_bind_lift; rintro ⟨s2, pfx, loc⟩
+          apply df_bind_lift; intro s3
+          apply df_bind_lift; rintro ⟨s4, quote⟩
+          apply df_bind_lift; rintro ⟨s5, value⟩
+          apply df_bind_lift; intro _
+          apply df_bind_lift; intro s6
+          refine df_bind _ _ _ (fun _ s' => s' = (n, sn)) _
+            (df_emit _ _ (n, sn) _ (by simp [dStep]) rfl) ?_
+          intro _ st1 h1; subst h1
+          exact ih _ n sn hsn
+
+theorem parseStartTag_df (s : Stream) (n : Nat) (sn : Bool) (hsn : n = 0 → sn = false) :
+    DF (parseStartTag T txt s) (n, sn) (fun p st => st.1 = if p.2 then n + 1 else n) := by
+  unfold parseStartTag
+  apply df_bind_lift; intro s1
+  apply df_bind_lift; rintro ⟨s2, pfx, loc⟩
+  refine df_bind _ _ _ (fun _ s' => s' = (n, sn)) _ (df_emit _ _ (n, sn) _ (by simp [dStep]) rfl) ?_
+  intro _ st1 h1; subst h1
+  refine df_bind _ _ _ _ _ (startTagLoop_df T txt _ _ n sn hsn) ?_
+  rintro ⟨s3, fin⟩ st1 h1
+  dsimp only
+  split
+  · exact df_lift _ _ _ (by simp)
+  · rename_i opened
+    exact df_pure _ _ _ (h1 opened rfl)
+
+/-- Element content, `depth` elements of this activation open, at automaton depth `n > depth`:
+the depth never drops to 0 before `parse_content` returns. -/
+theorem parseContent_df :
+    ∀ (fuel depth : Nat) (s : Stream) (n : Nat) (sn : Bool), depth + 1 ≤ n →
+      DF (parseContent T txt fuel depth s) (n, sn) (fun _ _ => True) := by
+  intro fuel
+  induction fuel with
+  | zero => intro d s n sn _; unfold parseContent; exact df_lift _ _ _ (fun _ _ => trivial)
+  | succ f ih =>
+    intro d s n sn hn
+    obtain ⟨m, rfl⟩ : ∃ m, n = m + 1 := ⟨n - 1, by omega⟩
+    unfold parseContent
+    split
+    · exact df_pure _ _ _ trivial
+    · split
+      · split
+        · split
+          · split
+            · refine df_bind _ _ _ _ _ (parseComment_df T txt _ _) ?_
+              intro _ st1 h1; subst h1; exact ih _ _ _ _ hn
+            · split
+              · refine df_bind _ _ _ _ _ (parseCdata_df T txt _ _ _) ?_
+                intro _ st1 h1; subst h1; exact ih _ _ _ _ hn
+              · exact df_lift _ _ _ (fun _ _ => trivial)
+          · split
+            · refine df_bind _ _ _ _ _ (parsePi_df T txt _ _) ?_
+              intro _ st1 h1; subst h1; exact ih _ _ _ _ hn
+            · split
+              · refine df_bind _ _ _ _ _ (parseCloseElement_df T txt _ _ _) ?_
+                intro _ st1 h1; subst h1
+                split
+                · exact df_pure _ _ _ trivial
+                · rename_i hd
+                  have : d ≠ 0 := by simpa using hd
+                  exact ih _ _ _ _ (by omega)
+              · refine df_bind _ _ _ _ _ (parseStartTag_df T txt _ (m + 1) sn (by omega)) ?_
+                rintro ⟨s1, opened⟩ ⟨n1, sn1⟩ h1
+                simp only at h1
+                subst h1
+                refine ih _ _ _ _ ?_
+                cases opened <;> simp <;> omega
+        · exact df_lift _ _ _ (fun _ _ => trivial)
+      · refine df_bind _ _ _ _ _ (parseText_df T txt _ _ _) ?_
+        intro _ st1 h1; subst h1; exact ih _ _ _ _ hn
+
+theorem parseElement_df (s : Stream) :
+    DF (parseElement T txt s) (0, false) (fun _ _ => True) := by
+  unfold parseElement
+  refine df_bind _ _ _ _ _ (parseStartTag_df T txt _ 0 false (fun _ => rfl)) ?_
+  rintro ⟨s1, opened⟩ ⟨n1, sn1⟩ h1
+  dsimp only
+  split
+  · rename_i ho
+    simp only at h1 ho
+    subst ho
+    simp only [if_true] at h1
+    subst h1
+    exact parseContent_df T txt _ _ _ _ _ (by omega)
+  · exact df_pure _ _ _ trivial
+
+theorem parseBody_df (s : Stream) : DF (parseBody T txt s) (0, false) (fun _ _ => True) := by
+  unfold parseBody
+  refine df_bind _ _ _ (fun _ _ => True) _ ?_ ?_
+  · unfold parseRootElement
+    split
+    · exact parseElement_df T txt _
+    · exact df_pure _ _ _ trivial
+  intro s1 st1 _
+  refine df_bind _ _ _ _ _ (parseMisc_df T txt _ _ st1) ?_
+  intro s2 st2 _
+  split
+  · exact df_lift _ _ _ (fun _ _ => trivial)
+  · exact df_pure _ _ _ trivial
+
+/-- The token stream of a document is accepted by the depth automaton. -/
+theorem parseDocument_df (allowDtd : Bool) :
+    DF (parseDocument T txt allowDtd) (0, false) (fun _ _ => True) := by
+  unfold parseDocument
+  refine df_bind _ _ _ _ _ (parseProlog_df T txt _) ?_
+  intro s1 st1 h1; subst h1
+  split
+  · split
+    · exact df_lift _ _ _ (fun _ _ => trivial)
+    · refine df_bind _ _ _ _ _ (parseDoctype_df T txt _ _) ?_
+      intro s2 st2 h2; subst h2
+      refine df_bind _ _ _ _ _ (parseMisc_df T txt _ _ _) ?_
+      intro s3 st3 h3; subst h3
+      exact parseBody_df T txt _
+  · exact parseBody_df T txt _
+
+end df
 
 /-- **Single root element** (all inputs, all options): among the children of node 0 there is
 exactly one Element and no Text. -/
